@@ -112,4 +112,52 @@ mod tests {
             "String must be rejected as an implementation of String!"
         );
     }
+
+    // ---- known (unfixed) findings: these FAIL on the unchanged tree by design; run with --ignored.
+
+    /// C01 (known finding): a non-finite float returned from a `Float!` field must not put null
+    /// into the non-null position silently.
+    #[test]
+    #[ignore = "known finding C01 non-finite-float-serializes-to-null"]
+    fn known_c01_non_finite_float_in_non_null_position() {
+        struct Q2;
+        #[Object]
+        impl Q2 {
+            async fn x(&self) -> f64 {
+                f64::NAN
+            }
+        }
+        let schema = Schema::new(Q2, EmptyMutation, EmptySubscription);
+        let r = block_on(schema.execute("{ x }"));
+        let null_in_non_null = r.errors.is_empty() && r.data == value!({ "x": null });
+        assert!(!null_in_non_null, "Float! field holds null and no error was reported: {:?}", r.data);
+    }
+
+    /// C08 (known findings): validators compare after a lossy `as` conversion.
+    #[test]
+    #[ignore = "known findings C08"]
+    fn known_c08_lossy_validator_conversions() {
+        use async_graphql::validators::{maximum, minimum};
+        assert!(maximum(&10.5f64, 10i64).is_err(), "10.5 <= 10 accepted (float truncated to i64)");
+        assert!(maximum(&(u64::MAX), 10i64).is_err(), "u64::MAX <= 10 accepted (wraps negative)");
+        assert!(minimum(&((1u64 << 53) + 1), ((1u64 << 53) + 2) as f64).is_err(), "2^53+1 >= 2^53+2 accepted (rounded to f64)");
+    }
+
+    /// C09 (known finding): a nullable variable used where a non-null argument is expected is
+    /// invalid (VariablesInAllowedPosition) and must be rejected by strict validation.
+    #[test]
+    #[ignore = "known finding C09 input-value-callbacks-not-forwarded"]
+    fn known_c09_variable_in_incompatible_position() {
+        struct Q3;
+        #[Object]
+        impl Q3 {
+            async fn f(&self, a: i32) -> i32 {
+                a
+            }
+        }
+        let schema = Schema::new(Q3, EmptyMutation, EmptySubscription);
+        let req = Request::new("query($v: Int) { f(a: $v) }").variables(Variables::from_json(serde_json::json!({"v": 1})));
+        let r = block_on(schema.execute(req));
+        assert!(!r.errors.is_empty(), "document with `$v: Int` in an `Int!` position was accepted: {:?}", r.data);
+    }
 }
